@@ -149,7 +149,7 @@ def audit(pid, prop_module, theorems, imports=None):
     d = os.path.join(WORK, pid)
     os.makedirs(d, exist_ok=True)
     path = os.path.join(d, f'Audit_{pid}.v')
-    lines = [imports or '', f'From VL Require Import {prop_module}.', 'From VL Require Import Lib.Bytes.']
+    lines = ['From Coq Require Import ZArith.', imports or '', f'From VL Require Import {prop_module}.', 'From VL Require Import Lib.Bytes.']
     for name, stmt in theorems.items():
         lines.append(f'Check ({name} : {stmt}).')
     for name in theorems:
